@@ -59,6 +59,16 @@ def handler(c):
         mc.accessible_volume = c["V"]
         mc.context.particle_delta = c["delta"]
         rep["mass"] = float(ex.get_masses().sum())
+    if c.get("warm"):
+        # a first trial under the construction-time settings: parameters changed afterwards must apply to the next trial
+        mc.context.last_potential_energy = c["E_old"] + 0.01
+        if kind in ("iso", "tens"):
+            mc.context.last_cell = Cell(np.array(c["cell_old"]) * 1.01)
+        mc.context.rng = ScriptedRNG([0.5])
+        try:
+            mc.moves["m"].criteria.evaluate(mc.context)
+        except Exception as e:  # noqa: BLE001
+            rep["warmup_raised"] = type(e).__name__
     mc.temperature = c["T"]
     if kind in ("iso", "tens"):
         mc.pressure = c["P"]
